@@ -74,17 +74,17 @@ var c21Batches = func() [][]int {
 	for _, r := range []roles{{0, 1, 2, 3}, {4, 3, 0, 2}} {
 		x, s, d, d2 := r.x, r.s, r.d, r.d2
 		out = append(out,
-			[]int{x, x},          // adjacent
-			[]int{x, s, x},       // same-bin separator
-			[]int{x, d, x},       // different-bin separator
-			[]int{x, s, d, x},    // two separators
-			[]int{x, d, s, x},    //   ... other order
-			[]int{x, d, d2, x},   // two foreign bins in between
-			[]int{x, x, x},       // triple, adjacent
-			[]int{x, d, x, d, x}, // triple, separated, separator repeated too
-			[]int{d, x, x},       // repeat not at the start
+			[]int{x, x},           // adjacent
+			[]int{x, s, x},        // same-bin separator
+			[]int{x, d, x},        // different-bin separator
+			[]int{x, s, d, x},     // two separators
+			[]int{x, d, s, x},     //   ... other order
+			[]int{x, d, d2, x},    // two foreign bins in between
+			[]int{x, x, x},        // triple, adjacent
+			[]int{x, d, x, d, x},  // triple, separated, separator repeated too
+			[]int{d, x, x},        // repeat not at the start
 			[]int{d, x, s, x, d2}, // repeat in the middle, trailing address
-			[]int{x, d, x, s},    // trailing same-bin address after the repeat
+			[]int{x, d, x, s},     // trailing same-bin address after the repeat
 		)
 	}
 	return out
@@ -148,10 +148,10 @@ func TestVerifC21Ops(t *testing.T) {
 	}
 
 	mc.Run(t, mc.Config{ID: "C21", Name: "C21-opseq", MaxDev: -1, Params: map[string]interface{}{
-		"depth":      depth,
-		"maxBins":    maxBinsChoices,
-		"addresses":  "a,b: proximity 0; c: 1; d: 3; e: 4; f: 44 (32-byte addresses, non-zero base)",
-		"operations": append([]string{"Add(x) x in a..f", "Remove(x) x in a..f"}, batchNames...),
+		"depth":                     depth,
+		"maxBins":                   maxBinsChoices,
+		"addresses":                 "a,b: proximity 0; c: 1; d: 3; e: 4; f: 44 (32-byte addresses, non-zero base)",
+		"operations":                append([]string{"Add(x) x in a..f", "Remove(x) x in a..f"}, batchNames...),
 		"observed_after_every_step": "Exists(a..f,ghost), Length, BinSize/BinPeers(0..maxBins+1, 255), ShallowestEmpty, EachBin and EachBinRev with callbacks {collect, stop at k, next-bin at k, next-bin always, error at k} for every k",
 		"pruning":                   "canonical state = maxBins + ordered bin contents + bin capacities",
 	}}, func(x *mc.X) {
